@@ -75,6 +75,9 @@ func runC11(c *ev.Ctx) {
 		"random sets of 1..12 validators with random and boundary subsets, pairwise quorum-intersection, Count/CountByIdx sequences with repeats vs a set model. " +
 		"non-trivial = distinct (total) values for which a subset of weight exactly floor(2T/3) or exactly quorum was evaluated (sweep) or distinct (set,subset) fingerprints (random part)"
 	c.Assumptions = []string{"oracle arithmetic in uint64 is correct", "validator sets are built through the public builder"}
+	c.Rule += "; plus sets of 1..5 weights below 2^32 whose true total lies above the maximum (just above, 2^31..2^32, beyond 2^32 where a 32-bit sum wraps back under the limit): Build must refuse them; " +
+		"plus sets counted whole (Count per member vs running sum, quorum flag, total and quorum unchanged) after the builder they came from, set.Builder() or set.Copy().Builder() was edited"
+	c11Extra(c)
 
 	// ---- (a) totals sweep
 	type rng struct{ lo, hi uint64 }
